@@ -74,6 +74,29 @@ func (w *World) addrLine(tag string, p int, a address.Address, err error) {
 	w.printf("%s %d root=%s path=%s str=%s\n", tag, p, root, hx([]byte(w.maskRoots(a.GetPath()))), hx([]byte(w.maskRoots(a.String()))))
 }
 
+// dbOpts returns the options value for a create/open by peer p: a fresh one, or — in scenarios with
+// reuse=1 — the one value this peer passes to every call (a caller keeping its options around), with
+// the fields the operations set explicitly cleared.
+func (w *World) dbOpts(p int) *orbitdb.CreateDBOptions {
+	if !w.reuseOpts {
+		return &orbitdb.CreateDBOptions{}
+	}
+	if w.peerOpts == nil {
+		w.peerOpts = map[int]*orbitdb.CreateDBOptions{}
+	}
+	o := w.peerOpts[p]
+	if o == nil {
+		o = &orbitdb.CreateDBOptions{}
+		w.peerOpts[p] = o
+	}
+	o.AccessController = nil
+	o.Overwrite = nil
+	o.LocalOnly = nil
+	o.Create = nil
+	o.StoreType = nil
+	return o
+}
+
 func (w *World) execAddrOp(ctx context.Context, toks []string) (bool, error) {
 	switch toks[0] {
 	case "detaddr":
@@ -93,7 +116,7 @@ func (w *World) execAddrOp(ctx context.Context, toks []string) (bool, error) {
 		// createdb p <namehex> <kind> <acl|default> [overwrite]
 		p := atoi(toks[1])
 		name := w.expandName(toks[2])
-		opts := &orbitdb.CreateDBOptions{}
+		opts := w.dbOpts(p)
 		if toks[4] != "default" {
 			opts.AccessController = aclParams(w.aclOf(toks[4]))
 		}
@@ -113,7 +136,7 @@ func (w *World) execAddrOp(ctx context.Context, toks []string) (bool, error) {
 		// openaddr p <strhex with @rN@> [localonly]
 		p := atoi(toks[1])
 		addr := w.expandName(toks[2])
-		opts := &orbitdb.CreateDBOptions{}
+		opts := w.dbOpts(p)
 		if len(toks) > 3 && toks[3] == "localonly" {
 			t := true
 			opts.LocalOnly = &t
@@ -137,7 +160,7 @@ func (w *World) execAddrOp(ctx context.Context, toks []string) (bool, error) {
 			return true, nil
 		}
 		p := atoi(toks[1])
-		opts := &orbitdb.CreateDBOptions{}
+		opts := w.dbOpts(p)
 		if len(toks) > 2 && toks[2] == "localonly" {
 			t := true
 			opts.LocalOnly = &t
